@@ -694,7 +694,10 @@ def check(ctx):
     N_default = N
     # large but legal rates (exp(-mu) underflows from mu = 746 on; the scan costs ~mu terms per value, hence the small N)
     small = [("UniformInt(0, 6*10^15)", 3000), ("UniformInt((-2^52), 2^52)", 3000), ("UniformInt(1, 5*10^31)", 3000), ("UniformInt(0, 2^53)", 3000),
-             ("Poisson(746)", 80), ("Poisson(1000)", 60), ("Poisson(745)", 60), ("Binomial(1100, 0.999)", 60)] + \
+             ("Poisson(746)", 80), ("Poisson(1000)", 60), ("Poisson(745)", 60), ("Binomial(1100, 0.999)", 60),
+             # parameters at the edge of float precision: 1 - p keeps few of p's digits, and P() and sample() must still agree
+             ("Geometric(1.6e-16)", 8000), ("Geometric(7.0e-17)", 8000), ("Geometric(1.5e-9)", 4000), ("Exponential(1.5e-300)", 4000),
+             ("Exponential(1.5e300)", 4000), ("Bernoulli(1.5e-17)", 3000)] + \
             ([("Poisson(2500)", 60), ("Poisson(800)", 400), ("Geometric(1/100000)", 300)] if not ctx.quick() else [])
     for t, N in [(t_, N_default) for t_ in dkw_cases] + small:
         eps = math.sqrt(math.log(2 / delta) / (2 * N))
